@@ -88,7 +88,7 @@ func genCLI(history bool) *rapid.Generator[*CLICase] {
 			if history && i == 0 {
 				k = "ok"
 			}
-			cs.Pkgs = append(cs.Pkgs, cliPkg{Name: fmt.Sprintf("p%c", 'a'+i), Kind: k, Variant: rapid.IntRange(0, 9).Draw(t, "variant"), Tagged: !history && rapid.IntRange(0, 3).Draw(t, "tagged") == 0,
+			cs.Pkgs = append(cs.Pkgs, cliPkg{Name: fmt.Sprintf("p%c", 'a'+i), Kind: k, Variant: rapid.IntRange(0, 9).Draw(t, "variant"), Tagged: !history && rapid.IntRange(0, 3).Draw(t, "tagged") == 0, TagBroken: rapid.Bool().Draw(t, "tagbroken"),
 				LineDir: rapid.IntRange(0, 99).Draw(t, "linedir") < 15, Shared: rapid.IntRange(0, 99).Draw(t, "shared") < 35})
 		}
 		cs.SharedVar = rapid.IntRange(0, 2).Draw(t, "sharedvar")
@@ -250,10 +250,10 @@ func runCLICase(c *Ctx, prop string, cs *CLICase) *Fail {
 		looseWrites := map[string]bool{}
 		anyFailGen, anyFailCheck := false, false
 		for _, p := range scope {
-			if p.failsGen() {
+			if p.failsGen(st.Opts.Tags) {
 				anyFailGen = true
 			}
-			if p.failsCheck() {
+			if p.failsCheck(st.Opts.Tags) {
 				anyFailCheck = true
 			}
 		}
@@ -267,7 +267,7 @@ func runCLICase(c *Ctx, prop string, cs *CLICase) *Fail {
 				// a readable header that is not Go: formatting fails for every package that has output;
 				// the statement fixes the status (an error => non-zero), not the bytes left behind
 				for _, p := range scope {
-					if p.generates() {
+					if p.generates(st.Opts.Tags) {
 						wantExit = 1
 						looseWrites[outPath(p, st.Opts.Prefix)] = true
 					}
@@ -281,7 +281,7 @@ func runCLICase(c *Ctx, prop string, cs *CLICase) *Fail {
 				wantExit = 1
 			}
 			for _, p := range scope {
-				if p.generates() {
+				if p.generates(st.Opts.Tags) {
 					fc, err := w.freshContent(p, st.Opts)
 					if err != nil {
 						c.Inconclusive(err.Error())
@@ -296,13 +296,13 @@ func runCLICase(c *Ctx, prop string, cs *CLICase) *Fail {
 				wantExit = 2
 			case st.Opts.Header == "invalid":
 				for _, p := range scope {
-					if p.generates() {
+					if p.generates(st.Opts.Tags) {
 						wantExit = 2
 					}
 				}
 			default:
 				for _, p := range scope {
-					if p.generates() {
+					if p.generates(st.Opts.Tags) {
 						fc, err := w.freshContent(p, st.Opts)
 						if err != nil {
 							c.Inconclusive(err.Error())
@@ -357,7 +357,7 @@ func runCLICase(c *Ctx, prop string, cs *CLICase) *Fail {
 		}
 		if st.Op == "gen" || st.Op == "default" {
 			for _, i := range scopeIdx {
-				lastGenOK[i] = wantExit == 0 && st.Opts.Prefix == "" && pkgs[i].generates()
+				lastGenOK[i] = wantExit == 0 && st.Opts.Prefix == "" && pkgs[i].generates(st.Opts.Tags)
 			}
 		}
 	}
@@ -405,7 +405,7 @@ func cliProperty(id string, history bool, rule string) {
 				}
 				mix := map[bool]bool{}
 				for _, p := range cs.Pkgs {
-					mix[p.failsGen()] = true
+					mix[p.failsGen("")] = true
 				}
 				if history && interesting >= 2 || !history && (len(mix) == 2 || interesting >= 1) {
 					c.Nontrivial(cs.key())
